@@ -1,5 +1,5 @@
-(* C12 — the accumulated copy-size limit (v5 model; the legacy package shares the logic, tied by
-   the correspondence). *)
+(* C12 — the accumulated copy-size limit: the v5 model first, then (V4LimitFacts.v) the same statements
+   about the model of the legacy package, whose limit is the package variable. *)
 From JP Require Import Bytes Json Text ImplV5 ApplyFacts.
 
 (* the limit error is raised only by a copy, only under a positive limit, and only when the running
@@ -219,3 +219,73 @@ Proof.
   - intros j l a. apply C12_zero_disables. reflexivity.
 Qed.
 Print Assumptions C12_main_theorem_applies.
+
+(* ---- the legacy package (ImplV4.v: g_limit is the package variable AccumulatedCopySizeLimit).  No domain
+   hypothesis: every operation list, state and setting. ---- *)
+From JP Require Import ImplV4.
+From JP Require V4LimitFacts.
+
+Theorem C12_legacy_error_iff : forall g p i st k l a,
+  apply4_from g i st p = (Err (ECopyLimit l a), k) <->
+  exists p1 op p2 st1 v,
+    p = p1 ++ op :: p2 /\ k = (i + length p1)%nat /\ apply4_from g i st p1 = (Ok st1, k) /\
+    op_kind op = KCopy /\ V4LimitFacts.copy_src4 g st1 op = Some v /\
+    (0 < g_limit g)%Z /\ l = g_limit g /\
+    a = (acc4 st1 + snd (deep_copy4 g v))%Z /\ (g_limit g < a)%Z.
+Proof. exact V4LimitFacts.v4_limit_error_iff. Qed.
+Print Assumptions C12_legacy_error_iff.
+
+Theorem C12_legacy_zero_disables : forall g p i st k l a,
+  (g_limit g <= 0)%Z -> apply4_from g i st p <> (Err (ECopyLimit l a), k).
+Proof. exact V4LimitFacts.v4_zero_disables. Qed.
+Print Assumptions C12_legacy_zero_disables.
+
+Theorem C12_legacy_others_do_not_count : forall g st op st',
+  op_kind op <> KCopy -> step4 g st op = Ok st' -> acc4 st' = acc4 st.
+Proof. exact V4LimitFacts.v4_others_do_not_count. Qed.
+Print Assumptions C12_legacy_others_do_not_count.
+
+Theorem C12_legacy_total_is_sum : forall g p i st st' j,
+  apply4_from g i st p = (Ok st', j) -> acc4 st' = (acc4 st + V4LimitFacts.sizes4 g st p)%Z.
+Proof. exact V4LimitFacts.v4_total_is_sum. Qed.
+Print Assumptions C12_legacy_total_is_sum.
+
+Theorem C12_legacy_total_within_limit : forall g p i st st' j,
+  apply4_from g i st p = (Ok st', j) -> (0 < g_limit g)%Z -> (acc4 st <= g_limit g)%Z -> (acc4 st' <= g_limit g)%Z.
+Proof. exact V4LimitFacts.v4_total_within_limit. Qed.
+Print Assumptions C12_legacy_total_within_limit.
+
+(* the size counted is the length of the copy as deepCopy spells it (HTML escaping always on, members of a
+   decoded object sorted); a nil source counts 0 although it is written with the four bytes null
+   (V4LimitFacts.v4_nil_counts_zero_spelled_with_four_bytes) — the property allows 0 or 4 for a copied null *)
+Theorem C12_legacy_counted_size_is_spelling_length : forall g v, v <> NNil ->
+  snd (deep_copy4 g v) = zlen (marshal4 v) /\
+  snd (deep_copy4 g v) = zlen (marshal4 (fst (deep_copy4 g v))).
+Proof. exact V4LimitFacts.v4_counted_size_is_spelling_length. Qed.
+Print Assumptions C12_legacy_counted_size_is_spelling_length.
+
+(* stopped by the limit, Apply returns the error and no document — and that is the only way it returns it *)
+Theorem C12_legacy_no_document : forall g indent p doc j l a,
+  api_apply4 g indent p doc = Err4 j (ECopyLimit l a) <->
+  exists t c k, doc <> [] /\ parse doc = Some t /\ V4OutputFacts.start4 t = Some c /\ j = Some k /\
+                apply4_from g 0 (mkState4 c 0) p = (Err (ECopyLimit l a), k).
+Proof. exact V4LimitFacts.v4_limit_stops_with_no_document. Qed.
+Print Assumptions C12_legacy_no_document.
+
+(* the spelling counted is the spelling in the output (compact output, the copy being the last operation) *)
+Theorem C12_legacy_copy_in_output : forall g p1 op doc t c out,
+  parse doc = Some t -> V4OutputFacts.start4 t = Some c -> op_kind op = KCopy ->
+  api_apply4 g [] (p1 ++ [op]) doc = Out4 out ->
+  exists st1 st2 v cp sz,
+    apply4_from g 0 (mkState4 c 0) p1 = (Ok st1, length p1) /\ step4 g st1 op = Ok st2 /\
+    V4LimitFacts.copy_src4 g st1 op = Some v /\ deep_copy4 g v = (cp, sz) /\ acc4 st2 = (acc4 st1 + sz)%Z /\
+    marshal4 cp = marshal4 v /\ (v <> NNil -> sz = zlen (marshal4 cp)) /\
+    SizeFacts.infix (marshal4 cp) out.
+Proof. exact V4LimitFacts.v4_copy_last_output. Qed.
+Print Assumptions C12_legacy_copy_in_output.
+
+(* non-vacuity: {"a":"<x>"} with two copies of /a (15 bytes each, HTML-escaped): limits 20 and 29 stop at
+   the second copy with total 30, limit 14 at the first, limits 30, 0 and -5 return the document *)
+Definition C12_legacy_nonvacuous := V4LimitFacts.v4_nonvacuous.
+Definition C12_legacy_main_theorems_apply := V4LimitFacts.v4_main_theorems_apply.
+Check C12_legacy_nonvacuous.
